@@ -362,7 +362,7 @@ fn check_file(ctx: &mut Ctx, dv: &V, file: &slicec::slice_file::SliceFile) {
 }
 
 const CORPUS: &[(&str, &[(&str, bool)])] = &[
-    ("structs, tags, optionals, anonymous types to depth 3", &[("module M\nstruct Z { z: varint62 }\nstruct A { a: bool, tag(0) b: int32?, tag(2147483647) c: Sequence<Dictionary<string, Sequence<Z?>>>? }\ncompact struct B { x: A, y: Result<A, string>, w: Sequence<Dictionary<string, Sequence<Z?>>> }\n", true)]),
+    ("structs, tags, optionals, anonymous types to depth 3", &[("module M\nstruct Z { z: varint62 }\nstruct A { a: bool, tag(0) b: int32?, tag(2147483647) c: Sequence<Dictionary<string, Sequence<Z?>>>?, tag(31) d: bool?, tag(32) e: bool?, tag(63) f: bool?, tag(64) g: bool?, tag(8191) h: bool?, tag(8192) i: string?, tag(16383) j: bool?, tag(536870911) k: bool?, tag(536870912) l: bool? }\ncompact struct B { x: A, y: Result<A, string>, w: Sequence<Dictionary<string, Sequence<Z?>>> }\n", true)]),
     ("enums: values at the extremes, unchecked, fields, compact", &[("module M\nenum E : int64 { A = -9223372036854775808, B = 9223372036854775807, C = 0 }\nunchecked enum U : uint8 { X, Y = 255 }\nenum V { P, Q(a: bool, tag(3) b: string?), R(c: Sequence<U>) }\ncompact enum W { One(x: int8), Two }\nunchecked enum X { Only }\n", true)]),
     ("interfaces: bases, idempotent, streams, return tuples, docs on parameters and return members", &[("module M\ninterface Base { ping() }\ninterface I : Base {\n    /// Does things.\n    /// @param a: the first\n    /// @param b: the second {@link Base}\n    /// @returns r: the result\n    /// @returns s: the other result\n    /// @see Base\n    /// @see Base::ping\n    /// @see I\n    [x::op] idempotent op([p::one] a: bool, [p::two(x)] tag(1) b: string?, c: stream uint8) -> (r: int32, s: stream string)\n    /// @returns: just this\n    single(x: Sequence<bool>) -> string\n    /// @param x: same name as the return member below\n    /// @returns x: the return member called x\n    same(x: bool) -> (x: int32, y: bool)\n}\n", true)]),
     ("type aliases, custom types, attributes, links in overviews", &[("[[allow(Deprecated)]]\nmodule M::N\n/// An alias of {@link C} to look at.\n[deprecated(\"use \\\"C\\\" instead\")] typealias T = Sequence<C>\n[foo::bar(a, \"b c\")] custom C\n/// Uses {@link T} and then {@link C}, in that order.\nstruct S { [f::first] [f::second(one, two)] t: T, u: [cs::type(\"List\")] Sequence<T> }\n", true)]),
@@ -372,7 +372,7 @@ const CORPUS: &[(&str, &[(&str, bool)])] = &[
 ];
 
 pub fn run() -> i32 {
-    let mut rep = Report::new("request", "6 multi-file programs covering every definition kind, anonymous types to depth 3, tags 0 and 2^31-1, enumerator extremes, doc comments with links / @param / @returns / @see, source/reference splits: real encoder -> schema-driven decoder -> compared with the AST");
+    let mut rep = Report::new("request", "6 multi-file programs covering every definition kind, anonymous types to depth 3, tags 0, 2^31-1 and both sides of every variable-width boundary (31/32, 63/64, 8191/8192, 16383, 2^29-1/2^29), enumerator extremes, doc comments with links / @param / @returns / @see, source/reference splits: real encoder -> schema-driven decoder -> compared with the AST");
     let defs = parse_schema(concat!("@REPO@", "/slice/Compiler"));
     for (name, files) in CORPUS {
         rep.case(true, || name.to_string());
